@@ -119,7 +119,7 @@ func prepare(quiet bool) string {
 	key := buildKey()
 	cacheRoot := filepath.Join(verifDir, ".cache")
 	dir := filepath.Join(cacheRoot, key)
-	if _, err := os.Stat(filepath.Join(dir, "ok")); err == nil {
+	if _, err := os.Stat(filepath.Join(dir, "ok")); err == nil && binaryWorks(dir) {
 		os.Chtimes(dir, time.Now(), time.Now())
 		return dir
 	}
@@ -154,7 +154,7 @@ func prepare(quiet bool) string {
 		}
 	}
 	defer os.Remove(lock)
-	if _, err := os.Stat(filepath.Join(dir, "ok")); err == nil {
+	if _, err := os.Stat(filepath.Join(dir, "ok")); err == nil && binaryWorks(dir) {
 		return dir
 	}
 	start := time.Now()
@@ -208,7 +208,10 @@ func prepare(quiet bool) string {
 	if err := os.MkdirAll(filepath.Join(dir, "rootfs", "etc"), 0755); err != nil {
 		trouble("%v", err)
 	}
-	run("/", "cp", tmpOut, filepath.Join(dir, "hapsim.test"))
+	run("/", "cp", tmpOut, filepath.Join(dir, "hapsim.test.tmp"))
+	if err := os.Rename(filepath.Join(dir, "hapsim.test.tmp"), filepath.Join(dir, "hapsim.test")); err != nil {
+		trouble("%v", err)
+	}
 	run("/", "cp", "-r", filepath.Join(scratch, "rootfs", "etc", "templates"), filepath.Join(dir, "rootfs", "etc", "templates"))
 	run("/", "cp", filepath.Join(scratch, "instrument.json"), filepath.Join(dir, "instrument.json"))
 	os.WriteFile(filepath.Join(dir, "ok"), []byte(time.Now().Format(time.RFC3339)), 0644)
@@ -217,6 +220,14 @@ func prepare(quiet bool) string {
 		fmt.Fprintf(os.Stderr, "hapsim: built simulation binary in %.0fs (%s)\n", time.Since(start).Seconds(), key)
 	}
 	return dir
+}
+
+// binaryWorks runs the cached test binary with an empty test selection: a
+// truncated or damaged file is rebuilt instead of being trusted.
+func binaryWorks(dir string) bool {
+	cmd := exec.Command(filepath.Join(dir, "hapsim.test"), "-test.run", "^$")
+	cmd.Dir = dir
+	return cmd.Run() == nil
 }
 
 func pruneCache(root, keep string) {
@@ -242,7 +253,7 @@ func pruneCache(root, keep string) {
 	}
 	sort.Slice(dirs, func(i, j int) bool { return dirs[i].t.After(dirs[j].t) })
 	for i, d := range dirs {
-		if i >= 2 {
+		if i >= 8 && time.Since(d.t) > 2*time.Hour {
 			os.RemoveAll(d.p)
 		}
 	}
